@@ -76,6 +76,16 @@ def fresh_read(src, filename, proj, pos, want_visible=False):
     raise KeyError(pos)
 
 
+def shared_reads(src, filename, proj):
+    """Answers for every read when all reads are queried in source order on ONE analysis (the linter's usage
+    pattern): {pos: summary}"""
+    s, scope = analyse(src, filename, proj)
+    out = {}
+    for n in sorted(load_names(s.tree), key=lambda n: (n.lineno, n.col_offset)):
+        out[(n.lineno, n.col_offset)] = summarize(n)
+    return out
+
+
 def lint_view(proj, src, filename):
     from supp.linter import lint
     out = {'E01': [], 'E02': set(), 'E42': set(), 'W01': set(), 'W02': set(), 'raw': []}
